@@ -650,11 +650,57 @@ def rule_r6(chk, prog):
                     if isinstance(tg, ast.Name) and tg.id in extn and \
                             tg.id in gl:
                         v = st.value
+
+                        def is_infile(e, depth=0):
+                            """every value e can take is the input-file
+                            option (locals, and parameters through all call
+                            sites; a None default that is replaced under an
+                            ``is None`` test does not count)"""
+                            if opt_read(e) == 'infile':
+                                return True
+                            if not isinstance(e, ast.Name) or depth > 2:
+                                return False
+                            vals = [s2.value for s2 in walk_no_nested(fn)
+                                    if isinstance(s2, ast.Assign) and any(
+                                        isinstance(t2, ast.Name)
+                                        and t2.id == e.id
+                                        for t2 in s2.targets)]
+                            ps_ = params_of(fn)
+                            if e.id in ps_:
+                                ix = ps_.index(e.id)
+                                sites = 0
+                                for om in prog.pkg_modules():
+                                    for c2 in ast.walk(om.tree):
+                                        if isinstance(c2, ast.Call) and (
+                                                call_name(c2) or '').split(
+                                                    '.')[-1] == fn.name and (
+                                                        om is t or (call_name(
+                                                            c2) or ''
+                                                        ).startswith(
+                                                            t.name + '.')):
+                                            sites += 1
+                                            a2 = None
+                                            if len(c2.args) > ix:
+                                                a2 = c2.args[ix]
+                                            for k2 in c2.keywords:
+                                                if k2.arg == e.id:
+                                                    a2 = k2.value
+                                            if a2 is not None:
+                                                if opt_read(a2) != 'infile':
+                                                    return False
+                                            elif not vals:
+                                                return False
+                                if not sites and not vals:
+                                    return False
+                            elif not vals:
+                                return False
+                            return all(is_infile(x, depth + 1) for x in vals)
+
                         good = (isinstance(v, ast.Subscript) and isinstance(
                             v.value, ast.Call) and call_name(
                                 v.value) == 'os.path.splitext' and len(
-                                    v.value.args) == 1 and opt_read(
-                                        v.value.args[0]) == 'infile'
+                                    v.value.args) == 1 and is_infile(
+                                        v.value.args[0])
                                 and is_const(v.slice, 1))
                         cnt += 1
                         chk.check('C09.R6', f'tmpfiles.{q}', st, good,
@@ -737,6 +783,14 @@ def rule_r7(chk, prog):
                         for kk, vv in zip(st.value.keys, st.value.values):
                             if isinstance(kk, ast.Constant):
                                 kws[kk.value] = vv
+                    if isinstance(st, ast.Assign) and unparse(
+                            st.targets[0]) == k.value.id and isinstance(
+                                st.value, ast.Call) and call_name(
+                                    st.value) == 'dict' and \
+                            not st.value.args:
+                        for k2 in st.value.keywords:
+                            if k2.arg:
+                                kws[k2.arg] = k2.value
                     if isinstance(st, ast.Assign) and isinstance(
                             st.targets[0], ast.Subscript) and unparse(
                                 st.targets[0].value) == k.value.id and \
